@@ -299,10 +299,12 @@ func (gs GenesisState) ValidateOperatorUSDValues(operators map[string]struct{}, 
 			)
 		}
 
-		if operatorUSDValue.OptedUSDValue.TotalUSDValue.GT(avsUSDValue.Amount) {
+		// the AVS value is the sum of the operators' active values: an operator whose self
+		// delegation is below the AVS minimum has a total value but contributes nothing
+		if operatorUSDValue.OptedUSDValue.ActiveUSDValue.GT(avsUSDValue.Amount) {
 			return errorsmod.Wrapf(
 				ErrInvalidGenesisData,
-				"the total USD value of operator shouldn't be greater than the total USD value of the AVS, avsUSDValue: %s, operatorUSDValue: %+v",
+				"the active USD value of operator shouldn't be greater than the total USD value of the AVS, avsUSDValue: %s, operatorUSDValue: %+v",
 				avsUSDValue.Amount.String(), operatorUSDValue,
 			)
 		}
